@@ -595,5 +595,428 @@ def correspondence(ctx):
             "samples": samples, "disagreements": disagreements[:10], "distribution": dist}
 
 
+# ============================================================================================== search
+SEARCH_CLASSES = ["Gaussian", "Exponential", "Matern", "Stable", "Rational", "Spherical", "Cubic", "Circular",
+                  "SuperSpherical", "HyperSpherical", "Integral", "JBessel", "Linear",
+                  "TPLGaussian", "TPLExponential", "TPLStable", "TPLSimple"]
+TPL_FACTOR = ("TPLGaussian", "TPLExponential", "TPLStable")      # classes with a variance factor
+
+
+class RecordingCurveFit:
+    """wraps the real scipy curve_fit and records every curve evaluation (an observer, not a replacement)"""
+
+    def __init__(self, orig):
+        self.orig, self.evals, self.popt, self.p0, self.bounds = orig, [], None, None, None
+
+    def __call__(self, **kw):
+        f = kw["f"]
+        evals = self.evals
+
+        def g(x, *args):
+            evals.append(tuple(float(a) for a in args))
+            return f(x, *args)
+        kw = dict(kw)
+        kw["f"] = g
+        self.p0, self.bounds = [float(v) for v in kw["p0"]], kw["bounds"]
+        popt, pcov = self.orig(**kw)
+        self.popt = [float(v) for v in popt]
+        return popt, pcov
+
+
+def real_fit(model, x, y, **kw):
+    """run the real fit_variogram with the real scipy optimiser; returns (result or exception, recorder)"""
+    import gstools.covmodel.fit as fitmod
+    rec = RecordingCurveFit(fitmod.curve_fit)
+    orig = fitmod.curve_fit
+    fitmod.curve_fit = rec
+    try:
+        with warnings.catch_warnings():
+            warnings.simplefilter("ignore")
+            try:
+                return model.fit_variogram(x, y, return_r2=True, **kw), rec
+            except Exception as e:  # noqa
+                return e, rec
+    finally:
+        fitmod.curve_fit = orig
+
+
+def eps_close(a, b, ulps=8):
+    a, b = float(a), float(b)
+    return abs(a - b) <= ulps * np.finfo(float).eps * max(abs(a), abs(b), 1e-300)
+
+
+def indep_r2(model, x, y, is_dir):
+    """r2 of the final model state from public evaluators only"""
+    x, y = np.asarray(x, float), np.asarray(y, float).reshape(-1)
+    if is_dir:
+        v = np.concatenate([model.vario_axis(x, axis=i) for i in range(model.dim)])
+    elif model.latlon:
+        v = model.vario_yadrenko(x)
+    else:
+        v = model.variogram(x)
+    return 1.0 - np.sum((y - v) ** 2) / np.sum((y - np.mean(y)) ** 2), v
+
+
+def check_fit(model, cfg, ret, rec, pre_state, viol, stats):
+    """property checks on one successful real fit.  cfg: dict describing the call."""
+    cls, tpl = cfg["cls"], cfg["cls"] in TPL_FACTOR
+    d, _pcov, r2 = ret
+    sel, sill = cfg["sel"], cfg["sill_value"]
+    fitted = [k for k in ["var", "len_scale", "nugget"] + list(model.opt_arg) if sel.get(k, True) is True]
+    if sill is not None:
+        # sill bookkeeping of _pre_para: the nugget is never fitted; a deselected nugget (alone) also pins the variance
+        if "nugget" in fitted:
+            fitted.remove("nugget")
+        elif "var" in fitted:
+            fitted.remove("var")
+    last = rec.evals[-1] if rec.evals else None
+    last_is_popt = last is not None and rec.popt is not None and tuple(rec.popt) == tuple(last)
+    case = {k: cfg[k] for k in cfg if k not in ("weights_obj",)}
+    case.update(popt=rec.popt, last_eval=list(last) if last else None, n_eval=len(rec.evals))
+
+    def report(key, what, **extra):
+        viol.append({"key": key, "what": what, "case": dict(case, **extra)})
+
+    def d9(variant, what, **extra):
+        # a D9 witness only if the optimiser's last evaluation was not at popt; otherwise something else is wrong
+        if not last_is_popt:
+            stats["d9:" + variant] = stats.get("d9:" + variant, 0) + 1
+            report("fit:last-evaluation-state:" + variant, what + " (model left in the state of the last residual evaluation, which was not at popt)", **extra)
+        else:
+            report("fit:" + variant + ":last-eval-was-popt", what, **extra)
+    # --- dict == model state
+    for k, v in d.items():
+        mv = getattr(model, k)
+        if not np.array_equal(np.asarray(v, dtype=float), np.asarray(mv, dtype=float)):
+            if tpl and k == "var":
+                d9("tpl-dict-ne-model", "returned dict['var'] differs from model.var", dict_val=float(v), model_val=float(mv))
+            else:
+                report("fit:dict-ne-model:" + k, f"returned dict[{k!r}] differs from the model attribute", dict_val=np.asarray(v, float).tolist(), model_val=np.asarray(mv, float).tolist())
+    want = ["var", "len_scale", "nugget"] + list(model.opt_arg) + (["anis"] if cfg["is_dir"] else [])
+    if list(d.keys()) != want:
+        report("fit:dict-keys", f"dict keys {list(d.keys())} != {want}")
+    # --- untouched: fixed values and deselected parameters
+    for k, v in sel.items():
+        if v is True:
+            continue
+        expect = pre_state[k] if v is False else float(v)
+        tied = False
+        if sill is not None:
+            # sill bookkeeping may legitimately recompute nugget (var not fitted) or var (nugget deselected, var not)
+            if k == "nugget" and ("var" in sel and sel["var"] is not True):
+                tied = True       # both given: nugget := sill - var
+            if k == "var" and sel["var"] is not True and ("nugget" in sel and sel["nugget"] is not True) and expect > sill:
+                tied = True
+        if tied:
+            continue
+        got = float(getattr(model, k))
+        if got != expect:
+            if tpl and k == "var":
+                d9("tpl-var-deselected", "deselected/fixed variance of a TPL model changed", expected=expect, got=got)
+            elif eps_close(got, expect, 4) and tpl:
+                d9("tpl-var-deselected", f"deselected {k} changed", expected=expect, got=got)
+            else:
+                report("fit:untouched:" + k, f"deselected/fixed parameter {k} changed", expected=expect, got=got)
+    if cfg["is_dir"] and cfg["anis_mode"] != "fit":
+        exp_anis = np.asarray(pre_state["anis"] if cfg["anis_mode"] == "off" else cfg["anis_value"], float).reshape(-1)
+        if not np.array_equal(np.asarray(model.anis, float), exp_anis):
+            report("fit:untouched:anis", "anisotropy not fitted but changed", expected=exp_anis.tolist(), got=np.asarray(model.anis, float).tolist())
+    # --- sill identity
+    if sill is not None:
+        tot = float(model.var + model.nugget)
+        if not eps_close(tot, sill, 4):
+            var_fitted = sel.get("var", True) is True
+            if tpl:
+                d9("tpl-var-tied-to-sill" if not var_fitted else "tpl-fixed-sill", "var + nugget != prescribed sill", sill=sill, var_plus_nugget=tot, diff=tot - sill)
+            elif var_fitted:
+                d9("fixed-sill-var-only" if fitted == ["var"] else "fixed-sill-var-fitted", "var + nugget != prescribed sill", sill=sill, var_plus_nugget=tot, diff=tot - sill)
+            else:
+                report("fit:sill-identity", "var + nugget != prescribed sill", sill=sill, var_plus_nugget=tot, diff=tot - sill)
+        elif float(model.var) > sill * (1 + 1e-15) + 1e-300:
+            report("fit:var-above-sill", "variance above the prescribed sill", sill=sill, var=float(model.var))
+    # --- bounds
+    for k in ["var", "len_scale", "nugget"] + list(model.opt_arg):
+        b = list(model.arg_bounds[k])
+        v = float(getattr(model, k))
+        if not (b[0] <= v <= b[1]):
+            report("fit:bounds:" + k, "fitted value outside the parameter bounds", value=v, bounds=b[:2])
+    if np.any(np.asarray(model.anis) <= model.anis_bounds[0]) or np.any(np.asarray(model.anis) > model.anis_bounds[1]):
+        report("fit:bounds:anis", "anisotropy outside its bounds", value=np.asarray(model.anis).tolist())
+    # --- r2 is the r2 of the final model
+    r2i, curve = indep_r2(model, cfg["x"], cfg["y"], cfg["is_dir"])
+    if not (abs(r2i - r2) <= 1e-9 * (1 + abs(r2))):
+        report("fit:r2-not-of-final-model", "returned r2 differs from the r2 of the model after the call", returned=float(r2), recomputed=float(r2i))
+    # --- recovery (noise-free, start near the truth)
+    if cfg["noise"] == 0.0 and cfg["near"]:
+        stats["recovery-cases"] = stats.get("recovery-cases", 0) + 1
+        y = np.asarray(cfg["y"], float).reshape(-1)
+        err = float(np.max(np.abs(curve - y)) / np.max(np.abs(y)))
+        stats["max-curve-err"] = max(stats.get("max-curve-err", 0.0), err)
+        stats["min-r2"] = min(stats.get("min-r2", 1.0), float(r2))
+        stats.setdefault("_r2s", []).append((float(r2), err, cls, bool(cfg["identifiable"]), rec.p0, [cfg["start"].get(k) for k in fitted] if "start" in cfg else None))
+        if not (r2 > 1 - 1e-6) or err > 1e-3:
+            report("fit:recovery:" + cls, "noise-free data of the same family, start near the truth: generating curve not recovered", r2=float(r2), max_rel_curve_err=err)
+        elif cfg["identifiable"]:
+            truth = cfg["truth"]
+            for k in fitted:
+                if k in truth:
+                    rel = abs(float(getattr(model, k)) - truth[k]) / max(abs(truth[k]), 0.05)
+                    stats["max-par-err"] = max(stats.get("max-par-err", 0.0), rel)
+                    if rel > 2e-2:
+                        report("fit:recovery-parameters:" + cls, f"generating parameter {k} not recovered", truth=truth[k], got=float(getattr(model, k)), r2=float(r2))
+            if cfg["is_dir"] and cfg["anis_mode"] == "fit":
+                rel = float(np.max(np.abs(np.asarray(model.anis) - np.asarray(truth["anis"])) / np.asarray(truth["anis"])))
+                stats["max-par-err"] = max(stats.get("max-par-err", 0.0), rel)
+                if rel > 2e-2:
+                    report("fit:recovery-parameters:" + cls, "generating anisotropy not recovered", truth=truth["anis"], got=np.asarray(model.anis).tolist())
+
+
+def snapshot(m):
+    st = {"var": float(m.var), "len_scale": float(m.len_scale), "nugget": float(m.nugget), "anis": np.asarray(m.anis, float).tolist()}
+    for o in m.opt_arg:
+        st[o] = float(getattr(m, o))
+    return st
+
+
+def gen_real_case(rng, cls_name=None):
+    import gstools as gs
+    cls_name = cls_name or str(rng.choice(SEARCH_CLASSES))
+    cls = getattr(gs, cls_name)
+    mode = str(rng.choice(["iso", "iso", "dir", "dir", "latlon"]))
+    dim = int(rng.randint(1, 4))
+    if mode == "dir" and dim == 1:
+        dim = 2
+    kw = {}
+    if mode == "latlon":
+        kw = dict(latlon=True, geo_scale=float(rng.choice([1.0, gs.KM_SCALE, gs.DEGREE_SCALE])))
+        dim = 2
+    with warnings.catch_warnings():
+        warnings.simplefilter("ignore")
+        probe = cls(dim=dim, **kw)
+    opt_names = list(probe.opt_arg)
+    truth = {"var": float(rng.uniform(0.5, 3.0)), "len_scale": float(rng.uniform(1.0, 5.0)),
+             "nugget": float(rng.choice([0.0, rng.uniform(0.1, 1.0)]))}
+    if mode == "latlon":
+        truth["len_scale"] = float(rng.uniform(0.05, 0.5)) * probe.geo_scale
+    for o in opt_names:
+        b = probe.arg_bounds[o]
+        cur = float(getattr(probe, o))
+        lo = max(b[0], cur * 0.6) if np.isfinite(b[0]) else cur * 0.6
+        hi = min(b[1], cur * 1.5 + 0.1) if np.isfinite(b[1]) else cur * 1.5 + 0.1
+        if o == "len_low":
+            lo, hi = 0.0, 0.5
+        if lo >= hi:
+            lo, hi = cur, cur
+        truth[o] = float(rng.uniform(lo, hi)) if lo < hi else cur
+        # keep away from open ends
+        if len(b) > 2 and b[2][0] == "o" and truth[o] <= b[0]:
+            truth[o] = cur
+        if len(b) > 2 and b[2][1] == "o" and truth[o] >= b[1]:
+            truth[o] = cur
+    truth["anis"] = [float(rng.uniform(0.4, 1.6)) for _ in range(dim - 1)] if mode != "latlon" else [1.0, 1.0]
+    with warnings.catch_warnings():
+        warnings.simplefilter("ignore")
+        true_model = cls(dim=dim, var=truth["var"], len_scale=truth["len_scale"], nugget=truth["nugget"],
+                         anis=truth["anis"] if mode != "latlon" else 1.0, **{o: truth[o] for o in opt_names}, **kw)
+    nb = int(rng.randint(8, 21))
+    x = np.linspace(truth["len_scale"] * 0.15, truth["len_scale"] * float(rng.uniform(2.0, 3.5)), nb)
+    if mode == "latlon":
+        x = np.minimum(x, np.pi * probe.geo_scale * 0.95)
+    if mode == "dir":
+        y = np.array([true_model.vario_axis(x, axis=i) for i in range(dim)])
+    elif mode == "latlon":
+        y = true_model.vario_yadrenko(x)
+    else:
+        y = true_model.variogram(x)
+    noise = 0.0 if rng.rand() < 0.6 else float(rng.choice([0.02, 0.1]))
+    if noise:
+        y = y * (1.0 + noise * rng.randn(*np.shape(y)))
+    # --- selection
+    sel = {}
+    for k in ["var", "len_scale", "nugget"] + opt_names:
+        r = rng.rand()
+        if r < 0.55:
+            if rng.rand() < 0.3:
+                sel[k] = True
+        elif r < 0.75:
+            sel[k] = truth[k]            # fixed at the truth
+        else:
+            sel[k] = False               # deselected, model preset to the truth
+    if all(sel.get(k, True) is not True for k in ["len_scale"] + opt_names):
+        sel.pop("len_scale", None)      # keep at least one free parameter (nothing to fit otherwise: scipy raises TypeError on p0 = [])
+    r = rng.rand()
+    sill_arg, sill_value = None, None
+    true_sill = truth["var"] + truth["nugget"]
+    if r < 0.35:
+        sill_arg, sill_value = true_sill, float(true_sill)
+    elif r < 0.5:
+        sill_arg = False
+    near = rng.rand() < 0.8
+    start = {}
+    for k in ["var", "len_scale", "nugget"] + opt_names:
+        fitted = sel.get(k, True) is True
+        start[k] = truth[k] * float(1 + rng.uniform(-0.1, 0.1)) if (fitted and near) else truth[k]
+        if not near and fitted and k in ("var", "len_scale"):
+            start[k] = truth[k] * float(rng.choice([0.3, 3.0]))
+        if k in opt_names:
+            b = probe.arg_bounds[k]
+            eps = 1e-3
+            start[k] = float(min(max(start[k], b[0] + eps if np.isfinite(b[0]) else start[k]), b[1] - eps if np.isfinite(b[1]) else start[k]))
+    anis_mode, anis_arg, anis_value = "fit", True, None
+    start_anis = [a * float(1 + rng.uniform(-0.1, 0.1)) for a in truth["anis"]] if mode == "dir" else truth["anis"]
+    if mode == "dir":
+        r = rng.rand()
+        if r < 0.25:
+            anis_mode, anis_arg, start_anis = "off", False, truth["anis"]
+        elif r < 0.45:
+            anis_mode, anis_arg, anis_value = "fixed", list(truth["anis"]), list(truth["anis"])
+    with warnings.catch_warnings():
+        warnings.simplefilter("ignore")
+        m = cls(dim=dim, var=start["var"], len_scale=start["len_scale"], nugget=start["nugget"],
+                anis=start_anis if mode != "latlon" else 1.0, **{o: start[o] for o in opt_names}, **kw)
+    if sill_arg is False:
+        sill_value = float(m.sill)
+        if abs(sill_value - true_sill) > 1e-12:
+            near = False        # the model's current sill is not the generating one: no recovery expected
+    r = rng.rand()
+    if r < 0.55:
+        ig = "current"
+    elif r < 0.8:
+        ig = {"default": "current"}
+        for k in list(start)[: int(rng.randint(0, 3))]:
+            ig[k] = start[k]
+    else:
+        ig = {k: start[k] for k in start}
+        ig["anis"] = start_anis if mode == "dir" else 1.0
+        if rng.rand() < 0.5:
+            ig["default"] = "default"
+    r = rng.rand()
+    wdesc, wobj = None, None
+    if r < 0.15:
+        wdesc = wobj = "inv"
+    elif r < 0.3:
+        wobj = 1.0 / (1.0 + np.arange(nb)); wdesc = "array"
+    elif r < 0.4:
+        wobj = (lambda xx: 1.0 / (1.0 + xx)); wdesc = "callable"
+    method = str(rng.choice(["trf", "trf", "dogbox"]))
+    loss = str(rng.choice(["soft_l1", "soft_l1", "linear", "huber"]))
+    fitted_names = [k for k in ["var", "len_scale", "nugget"] + opt_names if sel.get(k, True) is True]
+    # parameters are only identifiable from the curve when shape parameters are pinned and the bins resolve the range
+    identifiable = not any(o in fitted_names for o in opt_names) and cls_name not in ("TPLGaussian", "TPLExponential", "TPLStable", "TPLSimple", "JBessel") \
+        and not (sill_value is None and "nugget" in fitted_names and "var" in fitted_names and cls_name in ("Gaussian", "Matern", "Stable", "Rational", "Integral"))
+    cfg = dict(cls=cls_name, dim=dim, mode=mode, truth=truth, start=start, start_anis=start_anis, sel=sel, sill=sill_arg, sill_value=sill_value,
+               anis_mode=anis_mode, anis_value=anis_value, init_guess=ig, weights=wdesc, method=method, loss=loss, noise=noise, near=near,
+               x=x.tolist(), y=np.asarray(y).tolist(), is_dir=(mode == "dir"), identifiable=identifiable, geo_scale=kw.get("geo_scale"))
+    call = dict(anis=anis_arg, sill=sill_arg, init_guess=dict(ig) if isinstance(ig, dict) else ig, weights=wobj, method=method, loss=loss, **sel)
+    return m, x, y, cfg, call
+
+
+def real_search(ctx, n, viol, stats):
+    rng = np.random.RandomState(ctx.seed + 2020)
+    ev = 0
+    for t in range(n):
+        cls_name = SEARCH_CLASSES[t % len(SEARCH_CLASSES)]
+        m, x, y, cfg, call = gen_real_case(rng, cls_name)
+        pre = snapshot(m)
+        # what _pre_para is expected to leave for deselected parameters is the value before the call
+        ret, rec = real_fit(m, x, y, **call)
+        ev += 1
+        stats["class:" + cls_name] = stats.get("class:" + cls_name, 0) + 1
+        stats["mode:" + cfg["mode"]] = stats.get("mode:" + cfg["mode"], 0) + 1
+        if isinstance(ret, Exception):
+            kind = canon_err(ret)
+            stats["exception:" + kind[:40]] = stats.get("exception:" + kind[:40], 0) + 1
+            msg = str(ret)
+            if kind in ("varGtSill", "nugGtSill"):
+                continue        # documented errors (deselected var/nugget above the sill)
+            if "Residuals are not finite in the initial point" in msg and cfg["sill_value"] is not None:
+                key = "fit:sill-vs-bounds:initial-point-punished"
+            elif kind == "bounds" and cfg["method"] == "dogbox":
+                key = "fit:dogbox-open-bound:setter-raises-during-fit"
+            elif "`x0` is infeasible" in msg or "x0" in msg:
+                key = "fit:exception:x0-infeasible"
+            else:
+                key = "fit:exception:" + kind[:60]
+            viol.append({"key": key, "what": f"valid call raised {type(ret).__name__}: {msg[:200]}", "case": cfg})
+            continue
+        check_fit(m, cfg, ret, rec, pre, viol, stats)
+    return ev
+
+
+def directed(ctx, viol, stats):
+    """corpus of known findings, replayed first on every run (real scipy)"""
+    import gstools as gs
+    ev = 0
+    x = np.linspace(0.5, 10.0, 12)
+    # D9a: fixed sill, only the variance fitted
+    for cls_name, ls in (("Exponential", 3.0), ("Gaussian", 2.0), ("Spherical", 4.0)):
+        cls = getattr(gs, cls_name)
+        truth = dict(var=1.5, len_scale=ls, nugget=0.5)
+        y = cls(dim=2, **truth).variogram(x)
+        m = cls(dim=2, var=1.3, len_scale=ls, nugget=0.5)
+        sel = {"len_scale": False}
+        cfg = dict(cls=cls_name, dim=2, mode="iso", truth=truth, sel=sel, sill=2.0, sill_value=2.0, anis_mode="fit", anis_value=None,
+                   init_guess="current", weights=None, method="trf", loss="soft_l1", noise=0.0, near=True, x=x.tolist(), y=y.tolist(),
+                   is_dir=False, identifiable=True, directed="D9a")
+        pre = snapshot(m)
+        ret, rec = real_fit(m, x, y, sill=2.0, init_guess="current", **sel)
+        ev += 1
+        if isinstance(ret, Exception):
+            viol.append({"key": "fit:exception:directed-D9a", "what": str(ret), "case": cfg})
+        else:
+            check_fit(m, cfg, ret, rec, pre, viol, stats)
+    # D9b: TPL model, variance deselected / tied to the sill by a deselected nugget
+    for cls_name in TPL_FACTOR:
+        cls = getattr(gs, cls_name)
+        truth = dict(var=1.5, len_scale=3.0, nugget=0.5)
+        y = cls(dim=2, **truth).variogram(x)
+        for sel, sill in (({"var": False}, None), ({"nugget": False}, 2.0)):
+            m = cls(dim=2, var=1.5, len_scale=2.7, nugget=0.5)
+            cfg = dict(cls=cls_name, dim=2, mode="iso", truth=truth, sel=sel, sill=sill, sill_value=sill, anis_mode="fit", anis_value=None,
+                       init_guess="current", weights=None, method="trf", loss="soft_l1", noise=0.0, near=True, x=x.tolist(), y=y.tolist(),
+                       is_dir=False, identifiable=False, directed="D9b")
+            pre = snapshot(m)
+            ret, rec = real_fit(m, x, y, sill=sill, init_guess="current", **sel)
+            ev += 1
+            if isinstance(ret, Exception):
+                viol.append({"key": "fit:exception:directed-D9b", "what": str(ret), "case": cfg})
+            else:
+                check_fit(m, cfg, ret, rec, pre, viol, stats)
+    # sill inside the admissible range of custom bounds, but the optimiser's box is [var_lo, sill] regardless of var_hi / nugget_hi
+    truth = dict(var=1.5, len_scale=3.0, nugget=0.5)
+    y = gs.Exponential(dim=2, **truth).variogram(x)
+    for bk, key in (({"var": [0.0, 1.0]}, "fit:sill-vs-bounds:setter-raises-during-fit"),
+                    ({"nugget": [0.0, 0.25]}, "fit:sill-vs-bounds:initial-point-punished")):
+        m = gs.Exponential(dim=2)
+        m.set_arg_bounds(**bk)
+        ret, rec = real_fit(m, x, y, sill=2.0)
+        ev += 1
+        cfg = dict(cls="Exponential", dim=2, bounds=bk, sill=2.0, x=x.tolist(), y=y.tolist(), directed="sill-vs-bounds")
+        if isinstance(ret, Exception):
+            viol.append({"key": key, "what": f"sill=2.0 is within [var_lo+nugget_lo, var_hi+nugget_hi] but the fit raises {type(ret).__name__}: {str(ret)[:160]}", "case": cfg})
+        else:
+            tot = float(m.var + m.nugget)
+            stats["sill-vs-bounds:ok"] = stats.get("sill-vs-bounds:ok", 0) + 1
+            if not eps_close(tot, 2.0, 4):
+                viol.append({"key": "fit:sill-identity", "what": "var + nugget != sill", "case": dict(cfg, tot=tot)})
+    return ev
+
+
 def search(ctx, deep=False):
-    return {"evaluations": 0, "violations": [], "summary": "not yet"}
+    viol, stats = [], {}
+    ev = directed(ctx, viol, stats)
+    n = ctx.scale(170, 3000) * (3 if deep else 1)
+    ev += real_search(ctx, n, viol, stats)
+    # one representative per key (the verdict is per key), most informative first
+    seen, out = set(), []
+    for v in viol:
+        if v["key"] not in seen:
+            seen.add(v["key"])
+            out.append(v)
+    counts = {}
+    for v in viol:
+        counts[v["key"]] = counts.get(v["key"], 0) + 1
+    return {"evaluations": ev, "violations": out[:12], "counts": counts,
+            "summary": f"{ev} real scipy fits ({len(SEARCH_CLASSES)} classes, isotropic/directional/lat-lon, noise-free and noisy): dict==model, untouched, "
+                       f"sill identity, bounds, r2 of final model, recovery of curve/parameters; violation keys: {counts}; stats: "
+                       + ", ".join(f"{k}={v}" for k, v in sorted(stats.items()) if not k.startswith("class:"))}
